@@ -136,6 +136,21 @@ def permutation_specs(ctx, rng):
         e1 = ep.scan(ext=True)
         ep.law("same", [e1, ep.scan(ext=True, shuffle=rng.randint(0, 10 ** 6))])
         sspecs.append(ep.spec)
+    # trees in which one directory is a symbolic link to another directory of the tree (= the same content under a
+    # second name): whichever of the two names the enumeration reaches first, both are scanned
+    for _ in range(25 if ctx.quick else 400):
+        p = projgen.add_link(projgen.random_project(rng, max_depth=rng.choice([2, 3, 4]), n_stmts=rng.randint(4, 25)), rng)
+        if p is None:
+            continue
+        ep = sc.ScanEpisode(p)
+        s0 = ep.scan()
+        for k in range(3):
+            ep.law("same", [s0, ep.scan(shuffle=rng.randint(0, 10 ** 6))])
+        e1 = ep.scan(ext=True, limit=rng.choice([0, 1, 2]))
+        ep.law("same", [e1, ep.scan(ext=True, limit=e1 and ep.items[-1]["limit"], shuffle=rng.randint(0, 10 ** 6))])
+        for i, rule in enumerate(sc.rules_above(sc.all_modules(p), 99, rng, 6)):
+            ep.seval(s0, f"R{i}", rule)
+        sspecs.append(ep.spec)
     return rspecs, lspecs, sspecs
 
 
@@ -144,7 +159,9 @@ def seed_specs(ctx, rng):
     specs = []
     for _ in range(12 if ctx.quick else 120):
         w = random_world(rng, n_modules=rng.randint(8, 20), n_imports=rng.randint(10, 50))
-        ep = RuleEpisode(w)
+        # (renderings: also names that differ from one another in letter case only, or are prefixes of one another -
+        # message lines that compare equal under some normalisation must still come in one fixed order)
+        ep = RuleEpisode(w, render=rng.choice(["ident", "case", "case", "adv"]))
         for rule in rc.sampled_rules(rng, w.modules, 25, max_batch=3, strict_bias=0.5):
             ep.eval(rule)
         specs.append(ep.spec)
